@@ -3,7 +3,10 @@
 // RIB/FIB code with fw/table's sync operations redirected to the controlled scheduler; every
 // complete execution is checked for crash, deadlock, linearizability of the recorded history
 // against the SAME implementation run sequentially, torn lookup results and final-state
-// equivalence with some sequential order. (b) Auxiliary: the same bodies free-running under the Go
+// equivalence with some sequential order. Every value a lookup returns is kept by reference with a
+// deep snapshot taken at the return and read again later (after the lookup thread's next scheduling
+// point, after every completed operation, after all threads finished): a difference means the
+// returned list/name was rewritten under its holder (C16.torn). (b) Auxiliary: the same bodies free-running under the Go
 // race detector (sampling; decides only the "no data race" clause).
 package main
 
@@ -45,6 +48,7 @@ type scnCtx struct {
 	thr   []int // op id -> thread
 	seq   map[string]seqOutcome
 	order [][]int
+	kept  int // lookup results retained by reference and re-read, over all checked executions
 }
 
 func newCtx(fib string, s scn.Scenario) *scnCtx {
@@ -130,6 +134,23 @@ func kinds(s scn.Scenario) string {
 	return strings.Join(l, "||")
 }
 
+// keptKey: a value a lookup returned was rewritten while the caller still held it. The key names
+// the lookup and the kinds of the updates that ran next to it, not the schedule.
+func keptKey(fib, lookupKind string, s scn.Scenario) string {
+	return fib + " " + lookupKind + " result changed after the lookup returned it (value kept by reference, compared with a deep snapshot taken at the return): updates " + strings.Join(updateKinds(s), "||")
+}
+
+// updateKinds: the kinds of the operations of s that are not lookups.
+func updateKinds(s scn.Scenario) []string {
+	var w []string
+	for _, k := range strings.Split(kinds(s), "||") {
+		if k != "Lookup" && k != "LookupStrategy" && k != "FaceProbe" && k != "" {
+			w = append(w, k)
+		}
+	}
+	return w
+}
+
 func (c *scnCtx) scenario() sched.Scenario {
 	return sched.Scenario{
 		Name: c.fib + " " + c.s.Name,
@@ -146,15 +167,26 @@ func (c *scnCtx) scenario() sched.Scenario {
 						id := x.Begin(fmt.Sprint(c.ids[opRef{t, k}]))
 						r := op.Run(x.Yield)
 						x.End(id, r)
+						// every lookup result kept so far (by any thread) is read again
+						scn.Recheck("after " + op.Name + " completed")
 					}
 				})
 			}
 			return bodies
 		},
 		Check: func(_ any, e *sched.Exec) []sched.Finding {
+			// lookup results kept by reference: read once more now that every thread has finished
+			// (before anything below re-creates the tables)
+			scn.Recheck("after all operations completed")
+			changed, nkept := scn.KeptChanged()
+			c.kept += nkept
+			var keptFs []sched.Finding
+			for _, k := range changed {
+				keptFs = append(keptFs, sched.Finding{Clause: "C16.torn", Key: keptKey(c.fib, k.Kind, c.s), Detail: k.String()})
+			}
 			final, held := safeFinal()
 			if held != "" {
-				return []sched.Finding{{Clause: "C16.deadlock", Key: c.fib + " a lock is still held after all operations returned: " + kinds(c.s), Detail: "reading the tables after the execution of " + c.s.Name + " blocks: " + held}}
+				return append(keptFs, sched.Finding{Clause: "C16.deadlock", Key: c.fib + " a lock is still held after all operations returned: " + kinds(c.s), Detail: "reading the tables after the execution of " + c.s.Name + " blocks: " + held})
 			}
 			n := len(c.ops)
 			inv, resp, res := make([]int, n), make([]int, n), make([]string, n)
@@ -163,7 +195,7 @@ func (c *scnCtx) scenario() sched.Scenario {
 				fmt.Sscan(h.Op, &id)
 				inv[id], resp[id], res[id] = h.Inv, h.Resp, h.Result
 			}
-			var fs []sched.Finding
+			fs := keptFs
 			// torn results: duplicate faces / nil entries in a consumed lookup result
 			for id, op := range c.ops {
 				if op.Kind == "Lookup" || op.Kind == "ListFib" {
@@ -253,6 +285,7 @@ type workItem struct {
 }
 type workResult struct {
 	Stats sched.Stats
+	Kept  int
 	Found []foundRec
 	Err   string
 }
@@ -281,6 +314,7 @@ func runItem(it workItem, bound int, deadline time.Time) workResult {
 		best[k] = foundRec{Clause: "C16." + strings.TrimPrefix(f.Clause, "C16."), Key: f.Key, Detail: f.Detail, Fib: it.Fib, Scenario: all[it.Idx].Name, Idx: it.Idx, Schedule: f.Schedule, Trace: f.Trace}
 	})
 	wr.Stats = st
+	wr.Kept = c.kept
 	if err != nil {
 		wr.Err = err.Error()
 	}
@@ -313,6 +347,7 @@ func workerMain() {
 }
 
 var raceRe = regexp.MustCompile(`(?s)WARNING: DATA RACE.*?==================`)
+var keptRe = regexp.MustCompile(`(?m)^KEPT-RESULT-CHANGED kind=(\w+) (.*)$`)
 
 func racePass(rep *report.Reporter, cov report.Coverage, budget time.Duration, skip map[string]bool) {
 	b := os.Getenv("VERIF_BUILD_DIR")
@@ -343,14 +378,47 @@ func racePass(rep *report.Reporter, cov report.Coverage, budget time.Duration, s
 		fib string
 		idx int
 	}
-	var jobs []job
+	// The budget usually ends the pass early. Families A and B keep their order (tree, then hash
+	// table); the scenarios of family C (existing strategy choices re-pointed under lookups that
+	// keep their results) are dealt in between, one after every three, so that both get their share
+	// of whatever is completed.
+	var jobs, jobsC []job
 	for _, fib := range []string{"tree", "ht"} {
 		for i := range all {
-			jobs = append(jobs, job{fib, i})
+			if scn.Family(all[i].Name) != "C" {
+				jobs = append(jobs, job{fib, i})
+			}
 		}
 	}
+	// (of family C first the scenarios that consist of lookups only: no sync operation separates
+	// two readers inside the read lock, so the controlled scheduler cannot tell their schedules
+	// apart and this pass is their only judge)
+	for _, readersOnly := range []bool{true, false} {
+		for i := range all {
+			if scn.Family(all[i].Name) == "C" && (len(updateKinds(all[i])) == 0) == readersOnly {
+				jobsC = append(jobsC, job{"tree", i}, job{"ht", i})
+			}
+		}
+	}
+	{
+		var mixed []job
+		for len(jobs) > 0 || len(jobsC) > 0 {
+			n := 3
+			if len(jobs) < n {
+				n = len(jobs)
+			}
+			mixed = append(mixed, jobs[:n]...)
+			jobs = jobs[n:]
+			if len(jobsC) > 0 {
+				mixed = append(mixed, jobsC[0])
+				jobsC = jobsC[1:]
+			}
+		}
+		jobs = mixed
+	}
 	var mu sync.Mutex
-	runs, races, crashes := 0, 0, 0
+	runs, races, crashes, keptChanged := 0, 0, 0, 0
+	perFam := map[string]int{}
 	th := "0"
 	if thorough() {
 		th = "1"
@@ -401,6 +469,14 @@ func racePass(rep *report.Reporter, cov report.Coverage, budget time.Duration, s
 		defer mu.Unlock()
 		runs += reps
 		s := all[j.idx]
+		perFam[scn.Family(s.Name)]++
+		// a lookup result that no longer equals its snapshot when read after all writers finished
+		kc := keptRe.FindStringSubmatch(stderr.String())
+		if kc != nil {
+			keptChanged++
+			rep.Add(report.Violation{Clause: "C16.torn", Key: keptKey(j.fib, kc[1], s), Detail: fmt.Sprintf("[%s %s, free-running] %s", j.fib, s.Name, kc[2]),
+				Replay: map[string]any{"mode": "race", "fib": j.fib, "scenario": s.Name, "index": j.idx}})
+		}
 		if ms := raceRe.FindAllString(stderr.String(), -1); len(ms) > 0 {
 			races += len(ms)
 			// root-cause key: the two innermost repository functions involved
@@ -416,15 +492,15 @@ func racePass(rep *report.Reporter, cov report.Coverage, budget time.Duration, s
 			top := racePair(ms[0])
 			rep.Add(report.Violation{Clause: "C16.race", Key: "data race: " + top, Detail: fmt.Sprintf("[%s %s] Go race detector: %s ; frames %v", j.fib, s.Name, top, fl),
 				Replay: map[string]any{"mode": "race", "fib": j.fib, "scenario": s.Name, "index": j.idx, "report": ms[0]}})
-		} else if err != nil {
+		} else if err != nil && kc == nil {
 			crashes++
 			line := firstLine(stderr.String())
 			rep.Add(report.Violation{Clause: "C16.crash", Key: "free-running crash: " + line, Detail: fmt.Sprintf("[%s %s] %v: %s", j.fib, s.Name, err, tail(stderr.String(), 600)),
 				Replay: map[string]any{"mode": "race", "fib": j.fib, "scenario": s.Name, "index": j.idx}})
 		}
 	})
-	cov["race_pass"] = map[string]any{"scenario_runs": done, "repetitions_each": reps, "executions": runs, "race_reports": races, "crashes": crashes, "complete": complete && skipped == 0, "scenarios_skipped_because_deadlocked": skipped,
-		"note": "auxiliary sampled evidence (free-running goroutines under the Go race detector); decides only the data-race clause"}
+	cov["race_pass"] = map[string]any{"scenario_runs": done, "repetitions_each": reps, "executions": runs, "race_reports": races, "crashes": crashes, "kept_results_changed": keptChanged, "scenario_runs_per_family": perFam, "complete": complete && skipped == 0, "scenarios_skipped_because_deadlocked": skipped,
+		"note": "auxiliary sampled evidence (free-running goroutines under the Go race detector); decides only the data-race clause. Lookup threads keep every result by reference, read it again after yielding the processor and once more after all writers finished"}
 }
 
 // racePair extracts "<access fn> vs <previous access fn>" from a race report.
@@ -478,7 +554,7 @@ func main() {
 		os.Exit(replay(os.Args[2]))
 	}
 	rep := report.New("C16", "model_checking")
-	bound, budget, raceBudget := 2, 70*time.Second, 35*time.Second
+	bound, budget, raceBudget := 2, 70*time.Second, 45*time.Second
 	if rep.Thorough() {
 		bound, budget, raceBudget = 3, 18*time.Minute, 6*time.Minute
 	}
@@ -529,7 +605,8 @@ func main() {
 	}
 	wg.Wait()
 	deadlocked := map[string]bool{}
-	execs, points, complete, outcomes, dbl := 0, 0, true, 0, 0
+	execs, points, complete, outcomes, dbl, kept := 0, 0, true, 0, 0, 0
+	famScn, famExec := map[string]int{}, map[string]int{}
 	minBound := bound
 	var samples []string
 	var per []sched.Stats
@@ -538,6 +615,9 @@ func main() {
 			report.Fatal("%s", r.Err)
 		}
 		execs += r.Stats.Executions
+		kept += r.Kept
+		famScn[scn.Family(all[items[i].Idx].Name)]++
+		famExec[scn.Family(all[items[i].Idx].Name)] += r.Stats.Executions
 		points += r.Stats.Points
 		outcomes += r.Stats.Outcomes
 		dbl += r.Stats.DoubleRuns
@@ -564,14 +644,15 @@ func main() {
 		"schedules": execs, "scenarios": len(items), "preemption_bound_completed_all_scenarios": minBound,
 		"preemption_bound_target": bound, "distinct_histories": outcomes, "determinism_double_runs": dbl,
 		"exhaustive": complete, "samples": samples, "per_scenario": per,
-		"rule":        "for each of the 2- and 3-thread scenarios (all pairs over 16 thread programs colliding on /a, /a/b and faces 1,2, plus selected triples) x {tree, hashtable FIB}: every schedule with at most the stated number of preemptions, scheduling points at every sync operation of fw/table and between obtaining and consuming a lookup result; each complete execution checked for crash, deadlock, linearizability against the same implementation run sequentially (brute force over all program-order- and real-time-consistent orders), torn results and final-state equivalence",
+		"lookup_results_kept_by_reference_and_reread": kept, "scenarios_per_family": famScn, "schedules_per_family": famExec,
+		"rule":        "for each of the 2- and 3-thread scenarios (all pairs over 16 thread programs colliding on /a, /a/b and faces 1,2, plus selected triples; family B: the same from a state with leftovers of earlier removals; family C: strategy choices re-pointed/unset/re-created on prefixes that already have one, incl. the default on /, against strategy and next-hop lookups) x {tree, hashtable FIB}: every schedule with at most the stated number of preemptions, scheduling points at every sync operation of fw/table and between obtaining and consuming a lookup result; each complete execution checked for crash, deadlock, linearizability against the same implementation run sequentially (brute force over all program-order- and real-time-consistent orders), torn results and final-state equivalence; every value a lookup returned is kept by reference with a deep snapshot taken at the return and read again after the lookup thread's next scheduling point, after every completed operation and after all threads finished (a difference = the returned list/name was rewritten under its holder: C16.torn)",
 		"explanation": "states/transitions = scheduling points visited; every schedule is an execution of the real code under the controlled scheduler",
 	}
 	racePass(rep, cov, raceBudget, deadlocked)
 	rep.Finish(cov, []string{
 		"scheduling points exist only at sync operations of fw/table (and explicit yields in the bodies); unsynchronised accesses are covered by the separate free-running -race pass (sampled, auxiliary)",
 		"Go lock fairness/writer preference and memory-model effects beyond sequential consistency are not modelled",
-		"scenario universe: names /a, /a/b (+lookups below), faces 1..4, initial routes /a->f1(CI) /a->f2 /a/b->f2(CI)",
+		"scenario universe: names /, /a, /a/b, /c (+lookups below), faces 1..4, strategies multicast and best-route, initial routes /a->f1(CI) /a->f2 /a/b->f2(CI); family C additionally starts with strategy choices /a=multicast /a/b=best-route /c=multicast",
 	})
 }
 
